@@ -24,4 +24,9 @@ for pid, spec in props_cli.SPECS.items():
     SPECS[pid] = (spec, props_cli.GROUP)
 # C04's element-access clause also covers the generic traits of Matrix/Vector (harness group lin)
 props_alg.SPECS['C04']['extra'] = list(props_alg.SPECS['C04'].get('extra', [])) + [(dict(props_lin.GROUP, replay_prefix='m '), props_lin.gen_datum)]
+# ... and scalars obtained through those traits from the Jones matrix itself (J *= s with s a reference into J must equal s*J):
+# the Jones rows of the aliasing table, as implementation oracles (x op= alias(x) against x op= copy)
+def _jones_alias_rows(g, tier):
+    return [c for c in props_alias.gen_C16(g, tier) if c.line.startswith(('al.jonesr', 'al.jonesc', 'al.jones '))]
+props_alg.SPECS['C04']['extra'].append((dict(props_alias.GROUP, replay_prefix='al.'), _jones_alias_rows))
 NOT_CLAIMED = {}
